@@ -1,2 +1,15 @@
-setup:
-	@echo setup placeholder
+# Build of the hand-written Coq development, extraction and the OCaml model runner.
+COQDIR=/verif/coq
+OCDIR=/verif/ocaml
+.PHONY: setup coq extract clean forbidden
+setup: coq extract forbidden
+coq:
+	cd $(COQDIR) && coq_makefile -f _CoqProject -o Makefile.coq >/dev/null && timeout 3000 $(MAKE) -f Makefile.coq -j16 > build.log 2>&1 || (tail -40 build.log; exit 1)
+extract: coq
+	mkdir -p $(OCDIR)/gen && cd $(OCDIR)/gen && timeout 600 coqc -Q $(COQDIR) NV $(COQDIR)/Extract/Extract.v > extract.log 2>&1 || (cat extract.log; exit 1)
+	cd $(OCDIR) && ocamlfind ocamlopt -O3 -package str -I gen gen/model.mli gen/model.ml modelrun.ml -o modelrun 2>&1 | grep -v "options -O3 is only relevant" || true
+	test -x $(OCDIR)/modelrun
+forbidden:
+	@! grep -rnE '\b(Admitted|admit|Axiom|Parameter|Conjecture|Hypothesis|Variable[^s])\b|Unset Guard|bypass_check|type-in-type|Admit Obligations' $(COQDIR) --include=*.v | grep -v 'Section\|(\*.*\*)' | grep -v '^[^:]*:[0-9]*: *Variable' || (echo "forbidden token found"; exit 1)
+clean:
+	cd $(COQDIR) && (test -f Makefile.coq && $(MAKE) -f Makefile.coq clean >/dev/null 2>&1 || true); rm -rf $(OCDIR)/gen $(OCDIR)/modelrun $(OCDIR)/*.cm* $(OCDIR)/*.o
